@@ -135,6 +135,15 @@ Definition resolvable (root : queue) (r : prule) : bool :=
   | _ => false
   end.
 Definition wf_rules (root : queue) (rules : list prule) : bool := forallb (resolvable root) rules.
+(* the static path starts with the letters root but its first component is not root (rootx.y): the only kind of
+   unresolvable rule validation lets through *)
+Definition rule_offroot (r : prule) : bool :=
+  match getLongestStaticPath true r with
+  | VOk (path, _) =>
+      hasPrefix path s_root &&
+      match splitOn c_dot (lower path) with first :: _ => negb (str_eqb first s_root) | [] => false end
+  | _ => false
+  end.
 
 Definition rootq (p : partition) : queue :=
   match p_queues p with Some (r :: _) => r | _ => rootOf [] end.
